@@ -89,6 +89,7 @@ def generate(rng, tier):
     docs = [G.gen_doc(rng, maxdepth=rng.choice([2, 3, 5])) for _ in range(500 if quick else 40000)]
     docs += [b'{"a\\"b":[1,{"c":"]}"}],"d":2}', b'{"\\u0061":1,"a":2}', b'[[],5]', b'{"a":[],"b":[7]}', b'{"a":{},"b":{"a":1}}', b'[1 ,2 , 3]',
              b'{"k":"v,]}\\\\","z":[{"k":"\\""}]}', b'[[[[[[1]]]]]]', b'{"":{"":1}}', b' [ ] ', b'{"a":1,"a":2}', b'["\\\\",1]', b'["\\\\\\"",1]']
+    docs += G.pretty_docs(rng, quick)
     for d in docs:
         ps = paths_of(rng, d)
         if len(ps) > (6 if quick else 40):
